@@ -586,6 +586,7 @@ func (r *concRun) describeRegs(hs []*cHandle) string {
 func (r *concRun) classify(rd *CRound, calls []*callRun, releaseStamp int64, ri int) {
 	st := &r.st
 	nPaused := 0
+	var firstPause int64
 	for _, cr := range calls {
 		if cr.once {
 			st.notifyCall = true
@@ -600,11 +601,16 @@ func (r *concRun) classify(rd *CRound, calls []*callRun, releaseStamp int64, ri 
 				st.glob = true
 			}
 		}
-		if cr.pausedEv >= 0 {
+		// A call that reached its pause point only after the release (the
+		// phase A guard fired first) was never held: it does not count.
+		if cr.pausedEv >= 0 && cr.events[cr.pausedEv].t < releaseStamp {
 			nPaused++
 			st.callPaused = true
 			if cr.pausedEv > 0 {
 				st.pausedLater = true
+			}
+			if firstPause == 0 || cr.events[cr.pausedEv].t < firstPause {
+				firstPause = cr.events[cr.pausedEv].t
 			}
 		}
 	}
@@ -618,7 +624,7 @@ func (r *concRun) classify(rd *CRound, calls []*callRun, releaseStamp int64, ri 
 		if hasGlob(h.path) {
 			st.glob = true
 		}
-		if h.createdRound == ri && nPaused > 0 && h.addCall != 0 && h.addCall < releaseStamp {
+		if h.createdRound == ri && nPaused > 0 && h.addCall != 0 && h.addCall < releaseStamp && h.addCall > firstPause {
 			st.addDuringPause = true
 		}
 		if !(h.removePlanned && h.removeRound == ri) || h.rmCall == 0 {
@@ -640,7 +646,7 @@ func (r *concRun) classify(rd *CRound, calls []*callRun, releaseStamp int64, ri 
 			}
 			continue
 		}
-		if nPaused == 0 || h.rmCall > releaseStamp {
+		if nPaused == 0 || h.rmCall > releaseStamp || h.rmCall < firstPause {
 			continue
 		}
 		st.removeDuringPause = true
@@ -648,7 +654,7 @@ func (r *concRun) classify(rd *CRound, calls []*callRun, releaseStamp int64, ri 
 			st.removeWaited = true
 		}
 		for _, cr := range calls {
-			if cr.pausedEv < 0 || !compatibleAny(h.path, cr.entries) || h.addRet == 0 || h.addRet > cr.xs {
+			if cr.pausedEv < 0 || cr.events[cr.pausedEv].t > h.rmCall || !compatibleAny(h.path, cr.entries) || h.addRet == 0 || h.addRet > cr.xs {
 				continue
 			}
 			before, after := false, false
